@@ -32,6 +32,28 @@ var intrinsics map[string]externalFn
 func init() {
 	intrinsics = map[string]externalFn{
 		"vSymbolic": func(fr *frame, args []value) value { return true },
+		"vAnd": func(fr *frame, args []value) value { return fr.i.vand(args[0], args[1]) },
+		"vOr": func(fr *frame, args []value) value {
+			return fr.i.vnot(fr.i.vand(fr.i.vnot(args[0]), fr.i.vnot(args[1])))
+		},
+		"vIte": func(fr *frame, args []value) value {
+			if c, ok := args[0].(bool); ok {
+				if c {
+					return args[1]
+				}
+				return args[2]
+			}
+			return mkIntVal(types.Int64, mkIte(args[0].(sym).e, exprOf(args[1]), exprOf(args[2])))
+		},
+		"vIteB": func(fr *frame, args []value) value {
+			if c, ok := args[0].(bool); ok {
+				if c {
+					return args[1]
+				}
+				return args[2]
+			}
+			return mkBoolVal(mkIte(args[0].(sym).e, exprOf(args[1]), exprOf(args[2])))
+		},
 		"vTier":     func(fr *frame, args []value) value { return fr.i.ex.Tier },
 		"vInt": func(fr *frame, args []value) value {
 			lo, hi := asInt64(args[1]), asInt64(args[2])
